@@ -357,6 +357,10 @@ class Evaluator:
         cur = self.expr(_as_load(st.target), s)
         v = self.expr(st.value, s)
         nv = ('bin', BINOPS.get(type(st.op), '?'), cur, v)
+        if isinstance(st.target, ast.Name):
+            # x += v mutates the object x names when it is a tensor: rules that care about
+            # aliasing (values handed out by reference) see the old value and the operand
+            s.events.append(Event('augname', (st.target.id, cur, v), st, s.ctx))
         self.assign(st.target, nv, s, st, aug=True)
         return [s]
 
